@@ -392,11 +392,12 @@ class H:
             return None, e
 
     @contextmanager
-    def stubs(self, patches):
+    def stubs(self, patches, also_concrete=False):
         """declared contract boundaries (2.1 item 3): {(owner, attr): replacement}.  Only in symbolic
-        mode; the concrete back end always runs the real callees."""
+        mode; the concrete back end runs the real callees (unless the harness asks for the same
+        boundary in its concrete cross-check: the stub must then be plain Python)."""
         saved = []
-        if self.sym:
+        if self.sym or also_concrete:
             for (owner, attr), repl in patches.items():
                 d = owner.__dict__
                 saved.append((owner, attr, d.get(attr, symx._MISSING)))
